@@ -24,7 +24,8 @@ func init() {
 			"(12) te.NumUses is replaced only by the role's token_num_uses, only when the request named none or more; " +
 			"(13) SudoPrivilege answers only false or the RootPrivs of AllowOperation on the ACL built from the looked-up caller token's policies and identity policies (honouring no_identity_policies) for the given path; " +
 			"(14) the login token entry takes its TTL from the CalculateTTL result handed in, its policies from the sanitised token policies, and has no parent; " +
-			"(15) renewal re-imposes the stored explicit max TTL and period of a role-less token, and the role's for role tokens, before every response; a role token's own stored explicit max TTL is read on every role-arm path and replaces the role's value only when that is unset or larger. (16) framework.CalculateTTL — which bounds every login and renewal — evaluates the backend-maximum and the explicit-maximum narrowing tests on every path before the effective maximum is used (shared with C05.1).",
+			"(15) renewal re-imposes the stored explicit max TTL and period of a role-less token, and the role's for role tokens, before every response; a role token's own stored explicit max TTL is read on every role-arm path and replaces the role's value only when that is unset or larger. (16) framework.CalculateTTL — which bounds every login and renewal — evaluates the backend-maximum and the explicit-maximum narrowing tests on every path before the effective maximum is used (shared with C05.1); " +
+			"(17) Core.RegisterAuth copies the created entry's ID, accessor, TTL and orphan-ness into the auth block unconditionally — each copy lies on every path from ts.create to the expiration manager's RegisterAuth and to the success return, and the auth's TTL is only ever stored from te.TTL; the create endpoint's response auth block is built after ts.create from the created entry's fields.",
 		NotDecided: "correctness of SanitizePolicies, StrListSubset and glob matching (values); the full cross product of role list semantics; what sudo on the create path is granted to.",
 		Run:        runC07,
 	})
